@@ -7,7 +7,7 @@ From Coq Require Import List NArith.
 From Coq.Strings Require Import Byte.
 From GI Require Import Gen.LockedFileConsts LockedFile.LockedFile LockedFile.LockBasics LockedFile.LockProofs LockedFile.MutexFacts
   LockedFile.LockedFileA LockedFile.LockProofsA.
-From GI Require Import LockedFile.Policy LockedFile.PolicyProofs LockedFile.PolicyCall.
+From GI Require Import LockedFile.Policy LockedFile.PolicyProofs LockedFile.PolicyCall LockedFile.PolicyLock.
 From GI Require Import LockedFile.ApiCloses.
 Import ListNotations.
 
@@ -268,6 +268,40 @@ Theorem C06_policies_extend_plans : forall i c p plan h s,
   end.
 Proof. exact PolicyTransform.run_pol_plan. Qed.
 Print Assumptions C06_policies_extend_plans.
+
+(* the error paths of the locking call itself, under any policy and from any OS state: either
+   the lock request succeeded, or the call failed (or is blocked) and never handed a File out *)
+Theorem C06_no_file_without_lock : forall i c fl b pol s,
+  match run_pol i c (client_prog fl b) pol [] s with
+  | (h', out, _) =>
+      In (OFlock (lock_arg_of_flags fl), ROk) h' \/
+      ((out = Finished ResErr \/ out = Blocked) /\ forall r0, ~ In (OMark MReturned, r0) h')
+  end.
+Proof. exact no_file_without_lock. Qed.
+Print Assumptions C06_no_file_without_lock.
+
+(* Mutex.Lock: a nil error means LOCK_EX was granted, whatever else failed *)
+Theorem C06_mutex_success_means_locked : forall i c pol s,
+  match run_pol i c (prog_of_call CMutex) pol [] s with
+  | (h', out, _) => out = Finished ResOk -> In (OFlock sys_LOCK_EX, ROk) h'
+  end.
+Proof. exact mutex_success_means_locked. Qed.
+Print Assumptions C06_mutex_success_means_locked.
+
+Theorem C06_write_call_success_means_locked : forall i c (cl : call) pol s,
+  lock_mode_of_flags (flags_of_call cl) = Some LEx ->
+  match run_pol i c (prog_of_call cl) pol [] s with
+  | (h', out, _) =>
+      (exists r, out = Finished r /\ r <> ResErr) -> In (OFlock sys_LOCK_EX, ROk) h'
+  end.
+Proof. exact write_call_success_means_locked. Qed.
+Print Assumptions C06_write_call_success_means_locked.
+
+(* every schedule of any number of clients: a call that has returned holds no descriptor *)
+Theorem C06_returned_closed : forall cfg f s c r,
+  wf_cfg cfg -> reachable cfg f s -> returned s c r -> fds (st_os s) c = None.
+Proof. exact returned_closed. Qed.
+Print Assumptions C06_returned_closed.
 
 (* the structure of the source these programs rely on (regenerated from the AST on every run):
    Read, Write and Transform close the File they acquired before any statement that can return,
